@@ -4,6 +4,7 @@ go 1.14
 
 require (
 	github.com/btcsuite/btcd v0.21.0-beta
+	github.com/btcsuite/btcutil v1.0.3-0.20201208143702-a53e38424cce
 	github.com/confio/ics23/go v0.6.6
 	github.com/ethereum/go-ethereum v1.9.25
 	github.com/joeqian10/neo-gogogo v1.1.0
